@@ -277,6 +277,11 @@ class FilesWorld:
         return os.path.normpath(os.path.join(root, "cwd", p))
 
     def execute(self, trace, keep_events=False):
+        """Every run starts from the same process state: executed in a forked child (isolate.py)."""
+        import isolate
+        return isolate.run_isolated(lambda: self.execute_here(trace, keep_events), ref=self.ref)
+
+    def execute_here(self, trace, keep_events=False):
         log = core.EventLog(keep=keep_events)
         log.add("trace", decided=True, prop="C19", seed=trace.get("seed"), swarm=trace.get("swarm"), ops=trace["ops"])
         root = os.path.join(self.workroot, "c19-%d" % self.runs_done)
